@@ -12,6 +12,12 @@
     behaviours that would expose a generator drawing from the ambient state (every way the state repeats x every request
     kind) plus some quiet ones is replayed around the real calls in fresh interpreters, and TLC judges the recorded
     entropy, intermediate codes, encrypted keys, confirmation codes, addresses and private keys (EnvJudge).
+(G)/(V) histories of calls: TLC enumerates the histories of spec/Bip38Hist.tla (decrypt / encrypt / intermediate-code calls
+    over one family of tokens: same passphrase and owner salt with different lot/sequence, another passphrase on the
+    same salt, with and without lot/sequence sharing salt bytes, another salt, a plain key) with the implementations
+    WITH MEMORY each exposes (MC_Bip38Hist model-checks them); a cover is replayed, every history in one fresh process,
+    and every answer is judged on its own arguments against Bip38.tla: what a call answers must not depend on what the
+    process did before.
 (V) freshness: histories of generation requests, each recorded in a freshly started interpreter
     (harness/c15_trace.py), are validated by TLC against the entropy ledger of Bip38.tla.
 """
@@ -351,7 +357,7 @@ def scenarios(rng, thorough):
     hd = [('HDKey-legacy', 'HDKey-legacy'), ('HDKey-legacy', 'HDKey-default'), ('HDKey-segwit', 'HDKey-legacy'),
           ('HDKey-p2sh-segwit', 'HDKey-legacy'), ('Key', 'HDKey-default'), ('Key', 'HDKey-segwit'), ('Key', 'HDKey-legacy'),
           ('Key', 'HDKey-p2sh-segwit')]
-    for j, (er, dr) in enumerate(hd * 2 if thorough else hd[1:7]):
+    for j, (er, dr) in enumerate(hd * 2 if thorough else hd[1:6]):
         net = nets[j % len(nets)]
         pw = (ASCII_PWS + NFC_PWS)[j % 5]
         nonec.append({'priv': keys[(j + 2) % len(keys)], 'comp': j % 3 != 1, 'net': net, 'pw': pw, 'enc_route': er, 'tok': None,
@@ -361,7 +367,7 @@ def scenarios(rng, thorough):
     ecnets = ['bitcoin', 'bitcoin', 'litecoin', 'bitcoin', 'testnet', 'bitcoin', 'dogecoin'] if not thorough else nets
     ecpws = ['TestingOneTwoThree', '123456', UNI_PWS[0], 'deadbeef', NFC_PWS[0], ASCII_PWS[3], UNI_PWS[5], 'CAFE', UNI_PWS[1], NFC_PWS[2],
              ' 0x12 ', UNI_PWS[6], 'Satoshi']
-    for j in range(39 if thorough else 11):
+    for j in range(39 if thorough else 9):          # (EC-multiplied decryptions are also exercised by the histories)
         pw = ecpws[j % len(ecpws)]
         lot = lots[j % len(lots)]
         net = ecnets[j % len(ecnets)]
@@ -528,13 +534,134 @@ def env_jobs(behs, rng, thorough):
              'supplied': bytes(rng.getrandbits(8) for _ in range(24)).hex()} for i, b in enumerate(chosen)]
 
 
+HIST_L = 3
+H_PW = {'P': 'owner passphrase', 'Q': 'other passphrase'}
+
+
+def hist_behaviours():
+    """(G) the histories of spec/Bip38Hist.tla, enumerated by TLC, each with the implementations-with-memory it exposes."""
+    out = c15_oracle.tlc_eval_fast('Bip38Eval', [{'k': 'histgen', 'L': HIST_L, 'facts': []}], 'Bip38Eval.cfg')
+
+    def call(c):
+        return (c['c'], c['t']['kind'], c['t']['p'], c['t']['s'], c['t']['ls'], c['pw'])
+    hs = sorted((tuple(call(c) for c in x['h']), tuple(sorted(x['exposed']))) for x in out[0]['hists'])
+    if len(hs) < 300 or not any(e for _, e in hs) or all(e for _, e in hs):
+        raise common.MachineryError('Bip38Hist: implausible set of histories (%d)' % len(hs))
+    return hs
+
+
+def hist_select(hs, rng, thorough):
+    """A cover: for every implementation with memory several histories that expose it (two calls; thorough: also three),
+    plus quiet histories.  Returns abstract histories."""
+    impls = sorted({i for _, e in hs for i in e})
+    pool = list(hs)
+    rng.shuffle(pool)
+    chosen, hits = [], {i: 0 for i in impls}
+    for want, length in ((2, 2),) + (((5, 2), (8, 3)) if thorough else ((3, 3),)):
+        for i in impls:
+            for h, e in pool:
+                if hits[i] >= want:
+                    break
+                if i in e and len(h) == length and h not in chosen:
+                    chosen.append(h)
+                    for k in e:
+                        hits[k] += 1
+    chosen += [h for h, e in pool if not e][:10 if thorough else 2]
+    return chosen
+
+
+def hist_world(rng):
+    """Concrete keys for the names of Bip38Hist: two passphrases, 4-byte salts S and T (the 8-byte salt of the key without
+    lot/sequence starts with S), two lots."""
+    s4, t4 = bytes(rng.getrandbits(8) for _ in range(4)), bytes(rng.getrandbits(8) for _ in range(4))
+    lot_a, lot_b = rng.randrange(100000, 1000000), rng.randrange(100000, 1000000)
+    ls = {1: (lot_a, 1), 2: (lot_a, 2), 3: (lot_b, 1)}
+    setup = {}
+    for p in 'PQ':
+        for s, sb in (('S', s4), ('T', t4)):
+            for l in range(4):
+                if (p, s, l) in {('P', 'S', 0), ('P', 'S', 1), ('P', 'S', 2), ('P', 'S', 3), ('Q', 'S', 1), ('P', 'T', 1)}:
+                    salt = sb + bytes(rng.getrandbits(8) for _ in range(4)) if l == 0 else sb
+                    setup['ec/%s/%s/%d' % (p, s, l)] = {
+                        'kind': 'ec', 'pw': H_PW[p], 'lot': ls[l][0] if l else None, 'seq': ls[l][1] if l else None, 'salt': salt.hex(),
+                        'seed': bytes(rng.getrandbits(8) for _ in range(24)).hex(), 'comp': bool(l % 2), 'net': 'bitcoin'}
+    setup['plain/P/-/0'] = {'kind': 'plain', 'priv': K_B.lower(), 'comp': True, 'net': 'bitcoin', 'pw': H_PW['P']}
+    return setup
+
+
+def hist_concrete(h, setup, toks, n):
+    calls = []
+    for i, (c, kind, p, s, l, pw) in enumerate(h):
+        name = '%s/%s/%s/%d' % (kind, p, s, l)
+        j = setup[name]
+        if c == 'dec':
+            calls.append({'c': 'dec', 'route': 'bip38_decrypt' if (kind == 'ec' and (n + i) % 2) else 'Key', 'tok': toks[name], 'pw': H_PW[pw],
+                          'net': 'bitcoin', 'name': 'dec(%s, %s)' % (name, pw)})
+        elif c == 'enc':
+            calls.append({'c': 'enc', 'priv': j['priv'], 'comp': j['comp'], 'net': j['net'], 'pw': H_PW[pw], 'name': 'enc(%s, %s)' % (name, pw)})
+        else:
+            calls.append({'c': 'inter', 'pw': H_PW[pw], 'lot': j['lot'], 'seq': j['seq'], 'salt': j['salt'], 'name': 'inter(%s)' % name})
+    return calls
+
+
+def records_hist(job, res):
+    """One record per call of a replayed history, of the same kinds as the single-call scenarios."""
+    out = []
+    case = {'kind': 'hist', 'job': job}
+    story = ' ; '.join(c['name'] for c in job['hist'])
+    for i, (c, g) in enumerate(zip(job['hist'], res)):
+        if c['c'] == 'dec':
+            rec = {'k': 'dec', 'route': c['route'], 'net': c['net'], 'tok': A(c['tok']), 'got': strip(g)}
+            what = ('key %s.. compressed=%s' % (bytes(g['priv']).hex()[:8], g['comp'])) if g['ok'] else 'refused (%s)' % g.get('note')
+        elif c['c'] == 'enc':
+            rec = {'k': 'enc', 'route': 'Key', 'net': c['net'], 'priv': list(bytes.fromhex(c['priv'])), 'comp': c['comp'],
+                   'got': {'ok': g['ok'], 'tok': A(g['tok'])}}
+            what = g['tok'] if g['ok'] else 'refused (%s)' % g.get('note')
+        else:
+            rec = {'k': 'inter', 'lotseq': [c['lot'], c['seq']], 'salt': list(bytes.fromhex(c['salt'])), 'got': {'ok': g['ok'], 'code': A(g['code'])}}
+            what = g['code'] if g['ok'] else 'refused (%s)' % g.get('note')
+        rec.update(PREC(c['pw']))
+        out.append((rec, ('history', i + 1, len(job['hist']), c['name'], job['hist'][i - 1]['name'] if i else None),
+                    'call %d of the history [%s] in one process: %s -> %s' % (i + 1, story, c['name'], what), case))
+    return out
+
+
+def run_histories(fut, rng_seed, thorough, replay_job):
+    """Set-up of the tokens in one process, then every selected history in its own fresh process."""
+    import random as _r
+    rng = _r.Random(rng_seed)
+    if replay_job:
+        jobs = [replay_job]
+        setup_recs = []
+    else:
+        hs = fut.result()
+        chosen = hist_select(hs, rng, thorough)
+        setup = hist_world(rng)
+        sres = run_trace({'setup': setup})['events']
+        toks, setup_recs = {}, []
+        for name, j in setup.items():
+            if j['kind'] == 'ec':
+                if not (sres[name]['inter']['ok'] and sres[name]['new'] and sres[name]['new']['ok']):
+                    raise common.MachineryError('history set-up: the implementation refused to create %s: %s' % (name, sres[name]))
+                toks[name] = sres[name]['tok']
+                setup_recs += records_ec(dict(j, decs=[]), sres[name], 0)
+            else:
+                toks[name] = sres[name]['enc']['tok']
+                setup_recs += records_nonec(dict(j, decs=[], tok=None, enc_route='Key', origin='history set-up'), sres[name], 0)
+        jobs = [{'hist': hist_concrete(h, setup, toks, n), 'abstract': [list(c) for c in h]} for n, h in enumerate(chosen)]
+    with ThreadPoolExecutor(max_workers=6) as tp:
+        res = list(tp.map(lambda j: run_trace(j)['events'], jobs))
+    return jobs, res, setup_recs
+
+
 def run(replay=None):
     ck = Check(PID)
     thorough = tier() == 'thorough'
     rng = ck.rng
     ck.rule = ('one case = one call of the implementation (Key/HDKey.encrypt, Key/HDKey(token, password, network), bip38_decrypt, '
                'bip38_intermediate_password, bip38_create_new_encrypted_wif) judged by TLC against Bip38.tla, or one generation '
-               'request of a recorded history or of a replayed behaviour of Bip38Env (Seed / SaveState / RestoreState / fork on the ambient '
+               'request of a recorded history, one call of a replayed history of calls of Bip38Hist (class = position, call, previous call) '
+               'or one request of a replayed behaviour of Bip38Env (Seed / SaveState / RestoreState / fork on the ambient '
                'pseudo-random generators around the requests; class = the behaviour); class = (call kind, route, network, token prefix / compression, relation of the '
                'passphrase to the right one [same, other normal form, wrong], passphrase class [ascii, empty, nfc, non-nfc, astral], '
                'key class, lot/sequence class)')
@@ -548,13 +675,16 @@ def run(replay=None):
     ref.selftest()
     t0 = time.time()
     timing = {}
-    bg = ThreadPoolExecutor(max_workers=5)
+    bg = ThreadPoolExecutor(max_workers=7)
     fut_model = bg.submit(c15_oracle.model_check_graph, 'MC_Bip38', 'MC_Bip38_thorough.cfg' if thorough else 'MC_Bip38.cfg',
                           ['Encrypt', 'Gen', 'GenerateExplicit', 'DecryptAct'], 16 if thorough else 4)
     fut_jvm = bg.submit(c15_oracle.prepare_jvm, 'Bip38Eval', 'Bip38Eval.cfg')
     fut_envmodel = bg.submit(common.model_check, 'MC_Bip38Env', 'MC_Bip38Env_thorough.cfg' if thorough else 'MC_Bip38Env.cfg',
                              None, 2, 1800, ['Step'])
     fut_behs = bg.submit(env_behaviours)
+    fut_histmodel = bg.submit(common.model_check, 'MC_Bip38Hist', 'MC_Bip38Hist_thorough.cfg' if thorough else 'MC_Bip38Hist.cfg',
+                              None, 4, 1800, ['Dec', 'Enc', 'Inter'])
+    fut_hists = bg.submit(hist_behaviours)
 
     # ---------------- drive the implementation
     if replay:
@@ -564,19 +694,26 @@ def run(replay=None):
         traces = [job] if kind == 'trace' else []
         envs = [job] if kind == 'env' else []
         behs = []
+        hist_replay = job if kind == 'hist' else None
     else:
         nonec, ec, traces = scenarios(rng, thorough)
         behs = fut_behs.result()
         envs = env_jobs(behs, rng, thorough)
+        hist_replay = None
     with ThreadPoolExecutor(max_workers=8) as tp:
+        fut_hist = tp.submit(run_histories, fut_hists, rng.getrandbits(64), thorough, hist_replay) if (hist_replay or not replay) else None
         fut_traces = [tp.submit(run_trace, t) for t in traces + envs]
         jobs = [('ec', j) for j in ec] + [('nonec', j) for j in nonec]         # longest jobs first
         results = common.pmap(_drive, jobs, procs=min(common.NCPU, 12)) if jobs else []
         trace_res = [f.result() for f in fut_traces]
+        hist_jobs, hist_res, hist_setup_recs = fut_hist.result() if fut_hist else ([], [], [])
     timing['drive_s'] = round(time.time() - t0, 1)
     recs = []
     for ji, ((kind, job), res) in enumerate(zip(jobs, results)):
         recs += records_nonec(job, res, ji) if kind == 'nonec' else records_ec(job, res, ji)
+    recs += hist_setup_recs
+    for job, res in zip(hist_jobs, hist_res):
+        recs += records_hist(job, res)
     env_res = trace_res[len(traces):]
     trace_res = trace_res[:len(traces)]
     for job, tr in zip(envs, env_res):      # replayed behaviours of Bip38Env: environment actions around the real requests
@@ -635,7 +772,15 @@ def run(replay=None):
     voracle = c15_oracle.Oracle()
     fut_vec = bg.submit(voracle.judge, vrecs + [c[0] for c in canaries])
     oracle = c15_oracle.Oracle()
-    verdicts = oracle.judge([r for r, _, _, _ in recs])
+    uniq, order = {}, []          # identical observations (same call, same answer - e.g. in several histories) are judged once
+    for r, _, _, _ in recs:
+        k = json.dumps(r, sort_keys=True)
+        if k not in uniq:
+            uniq[k] = len(order)
+            order.append(r)
+    uverdicts = oracle.judge(order)
+    verdicts = [uverdicts[uniq[json.dumps(r, sort_keys=True)]] for r, _, _, _ in recs]
+    ck.notes['records'] = {'observed': len(recs), 'distinct_judged': len(order)}
     timing['judge_s'] = round(time.time() - t0 - timing['drive_s'], 1)
 
     retry = []          # spec -> code: where the code's token is not the specified one, the specified token is decrypted too
@@ -691,6 +836,7 @@ def run(replay=None):
     ck.notes['binding_canaries_rejected_as_expected'] = len(canaries)
     ck.model(fut_model.result())
     ck.model(fut_envmodel.result())
+    ck.model(fut_histmodel.result())
     bg.shutdown()
     timing['wait_model_s'] = round(time.time() - t0 - timing['drive_s'] - timing['judge_s'] - timing['retry_s'], 1)
     timing['round_s'] = oracle.round_times
@@ -700,6 +846,8 @@ def run(replay=None):
     ck.notes['environment'] = {'behaviours_enumerated_by_tlc': len(behs), 'of_which_expose_an_ambient_generator': sum(e for _, e, _ in behs),
                                'replayed': len(envs), 'replayed_exposing': sum(1 for j in envs if tuple(j['env']) in set(b for b, e, _ in behs if e)),
                                'replayed_behaviours': [' '.join(j['env']) for j in envs]}
+    ck.notes['histories_of_calls'] = {'replayed': len(hist_jobs), 'calls': sum(len(j['hist']) for j in hist_jobs),
+                                      'replayed_histories': [' ; '.join(c['name'] for c in j['hist']) for j in hist_jobs][:40]}
     ck.notes['scenarios'] = {'without_ec_multiplication': len(nonec), 'ec_multiplied': len(ec), 'histories': len(traces),
                              'history_requests': ntrace_events, 'spec_tokens_decrypted_by_code': len(retry)}
     ck.notes['oracle'] = {'question_rounds_max': oracle.rounds, 'tlc_batches': oracle.tlc_runs,
